@@ -1,4 +1,5 @@
 import Claripy.Anno.Model
+import ClaripyProofs.Lemmas.Anno.Carrier
 /-!
 # C07 — annotations survive rewriting as the annotation contract promises
 
@@ -9,6 +10,13 @@ gate and hold for ANY proposal a simplifier may make — present or future rules
 * `C07_handle_unelim`  — an accepted proposal contains every non-eliminatable, non-relocatable annotation
   reachable in any argument (so a sub-expression carrying one is never removed: the rewrite is skipped instead);
 * `C07_handle_reloc`   — every relocatable annotation carried by an argument is present on the accepted result;
+* `C07_carrier_kept_partial` — the statement about the SUB-EXPRESSION itself: when the annotation sits on one
+  sub-expression only and the proposal puts non-eliminatable annotations only on sub-expressions of the arguments
+  (it builds no new node that carries one), the accepted result contains that very sub-expression.  Both premises
+  are needed: `C07_carrier_shared_removed` (the open finding C07-shared-annotation-carrier) and
+  `C07_carrier_moved_accepted` (the repaired defect of `bitwise_sub_simplifier`, which copied the annotations of
+  the sum onto a new sum) are accepted by the gate although the carrier is gone.  The second premise is a fact about
+  the simplifiers, not about the gate: the correspondence check watches it on every real rewrite;
 * `C07_build`          — the same two facts for whatever `_op` returns (accepted proposal or plain node);
 * `C07_simplify`       — explicit simplification keeps the top annotations and the direct arguments' relocatable ones;
 * `C07_frontend_simplify` — a solver never hands a constraint with a simplification-avoidance annotation to the rewriter
@@ -154,6 +162,51 @@ theorem C07_handle_reloc (simp : AExpr) (args : List AExpr) (r : AExpr) (h : han
     · exact hp
   · cases h
 
+/-- **C07 (gate, the annotated sub-expression itself) — partial**: `c` is the only sub-expression of the arguments
+carrying the non-eliminatable, non-relocatable annotation `u`, and every node of the proposal that carries such an
+annotation is a sub-expression of some argument.  Then an accepted proposal contains `c`, and what is returned is the
+proposal with the same operator and arguments (only relocatable annotations were added on top).
+Partial: without either premise the conclusion fails (`C07_carrier_shared_removed`, `C07_carrier_moved_accepted`). -/
+theorem C07_carrier_kept_partial (simp : AExpr) (args : List AExpr) (r : AExpr) (h : handle simp args = some r)
+    (c : AExpr) (u : Anno) (hu : isUnelim u = true)
+    (hc : ∃ a ∈ args, c ∈ a.subterms) (huc : u ∈ c.annos)
+    (huniq : ∀ a ∈ args, ∀ n ∈ a.subterms, u ∈ n.annos → n = c)
+    (hold : ∀ n ∈ simp.subterms, ∀ v ∈ n.annos, isUnelim v = true → ∃ a ∈ args, n ∈ a.subterms) :
+    c ∈ simp.subterms ∧ r.tag = simp.tag ∧ r.args = simp.args := by
+  obtain ⟨a0, ha0, hca0⟩ := hc
+  have htop := handle_topOnly simp args r h
+  have hur : u ∈ r.unelim := by
+    apply C07_handle_unelim simp args r h a0 ha0
+    -- u is reachable in a0 because it sits on c
+    have : ∀ (e : AExpr), c ∈ e.subterms → u ∈ e.unelim := by
+      intro e he
+      exact mem_unelim_of_carrier e c u he huc hu
+    exact this a0 hca0
+  have hus : u ∈ simp.unelim := htop.2.2 u hur
+  obtain ⟨n, hn, hun, _⟩ := unelim_carrier simp u hus
+  obtain ⟨a, ha, hna⟩ := hold n hn u hun hu
+  have : n = c := huniq a ha n hna hun
+  exact ⟨this ▸ hn, htop.1, htop.2.1⟩
+
+/-- the first premise is needed: one annotation on two sub-expressions, the proposal keeps only one of them
+(`(x | y)[k] & 3[k] ⇒ (x | y)[k]`) — accepted, and no node of the result is the literal that carried `k`.  Open finding
+C07-shared-annotation-carrier; replayed on the real code by the check. -/
+theorem C07_carrier_shared_removed :
+    let k : Anno := { id := 1, elim := false, reloc := false }
+    let xy : AExpr := .mk "or" [.mk "x" [] [], .mk "y" [] []] [k]
+    let lit : AExpr := .mk "3" [] [k]
+    (handle xy [xy, lit]).map (fun r => r.subterms.map AExpr.tag) = some ["or", "x", "y"] := by decide
+
+/-- the second premise is needed: a proposal that copies the annotation onto a NEW node
+(`(x + y + 1)[k] - 2 ⇒ (x + y + 255)[k]`, the defect repaired in `bitwise_sub_simplifier`) passes the gate: the
+result carries `k` on its top node, and the sum that carried it (it has the operand `1`) is not part of it. -/
+theorem C07_carrier_moved_accepted :
+    let k : Anno := { id := 1, elim := false, reloc := false }
+    let sum : AExpr := .mk "add" [.mk "x" [] [], .mk "y" [] [], .mk "1" [] []] [k]
+    let sum' : AExpr := .mk "add" [.mk "x" [] [], .mk "y" [] [], .mk "255" [] []] [k]
+    (handle sum' [sum, .mk "2" [] []]).map (fun r => (r.subterms.map AExpr.tag, r.annos))
+      = some (["add", "x", "y", "255"], [k]) := by decide
+
 theorem unelimList_mem (args : List AExpr) (a : AExpr) (ha : a ∈ args) (u : Anno) (hu : u ∈ a.unelim) :
     u ∈ AExpr.unelimList args := by
   induction args with
@@ -229,5 +282,7 @@ def xk : AExpr := .mk "x" [] [keep1]
 def yr : AExpr := .mk "y" [] [rel2]
 example : handle (.mk "y" [] []) [xk, yr] = none := by decide
 example : (handle xk [xk, yr]).map AExpr.annos = some [keep1, rel2] := by decide
+/-- non-vacuity of `C07_carrier_kept_partial`: `x & y[k] ⇒ y[k]`-shaped proposal, all premises hold -/
+example : (handle xk [.mk "z" [] [], xk]).map (fun r => (r.subterms.map AExpr.tag, r.annos)) = some (["x"], [keep1]) := by decide
 
 end Claripy.Props.C07
